@@ -34,7 +34,11 @@ def make_raw(case):
         met["timestamps"] = ["2024-10-27T02:30"] * ns
     # towers of one height at different places (a transect of identical masts) or of different heights
     towers = [dict(name="T%d" % k, lat=50.0 + 1e-4 * (k + 1), lon=11.0 + 2e-4 * (k + 1), z_m=3.0 + (0.0 if case.get("same_height") else 0.7 * k)) for k in range(nt)]
-    return dict(domain=dict(nx=8, ny=8, xmax=80.0, ymax=80.0, nz=4, modes=[8, 8], halo=20.0, ref_lat=50.0, ref_lon=11.0),
+    dom = dict(nx=8, ny=8, xmax=80.0, ymax=80.0, nz=4, modes=[8, 8], halo=20.0, ref_lat=50.0, ref_lon=11.0)
+    if case.get("no_ref"):
+        # a configuration without a reference origin: the towers' lat/lon are carried along but every tower sits at the local origin
+        del dom["ref_lat"], dom["ref_lon"]
+    return dict(domain=dom,
                 towers=towers, met=met, solver=dict(closure="MOST", footprint=case["footprint"], precision="double"),
                 parallel=dict(use_cache=bool(case["cache"]), max_workers=case["workers"]))
 
@@ -185,7 +189,7 @@ def gen_case(rng, k):
     return dict(towers=int(rng.integers(1, 4)), steps=int(rng.integers(1, 6)), strategy=strategy, workers=int(rng.choice([1, 2, 3, 4, 5, 8, 12])),
                 order=str(rng.choice(["hash", "reverse", "perm", "perm"])), prelude_flux=bool(rng.random() < 0.3),
                 parent_threads=int(rng.choice([1, 4])), cache=bool(rng.random() < 0.5), footprint=bool(rng.random() < 0.7),
-                same_height=bool(rng.random() < 0.45), repeat_met=bool(rng.random() < 0.5), timestamps=str(rng.choice(["none", "ascending", "wrap", "descending", "duplicate"])), cseed=int(rng.integers(1 << 30)),
+                same_height=bool(rng.random() < 0.45), no_ref=bool(rng.random() < 0.25), repeat_met=bool(rng.random() < 0.5), timestamps=str(rng.choice(["none", "ascending", "wrap", "descending", "duplicate"])), cseed=int(rng.integers(1 << 30)),
                 dseed=int(rng.integers(1 << 30)), max_delay=float(rng.choice([0.0, 0.3, 0.6])))
 
 
@@ -225,7 +229,8 @@ def run(rng, tier, deep):
     # shape sweep with a stubbed solver (cheap): every (towers, steps, workers, strategy) of a box - the regrouping arithmetic of the
     # drivers depends on divisibility relations between the three numbers
     box = [dict(towers=nt, steps=ns, strategy=stg, workers=w, order="perm", prelude_flux=False, parent_threads=1, cache=False, footprint=True,
-                repeat_met=False, timestamps="none", cseed=11 * nt + ns, dseed=7 * w + ns, max_delay=0.02 * min(w, 4), stub=True)
+                repeat_met=False, timestamps="none", cseed=11 * nt + ns, dseed=7 * w + ns, max_delay=0.02 * min(w, 4), stub=True,
+                no_ref=bool((nt + ns + w) % 5 == 0))
            for nt in (1, 2, 3, 4, 5) for ns in (1, 2, 3, 4) for w in (1, 2, 3, 4, 5, 6, 8) for stg in ("towers", "time", "both")]
     if deep or tier == "thorough":
         sweep = box
